@@ -7,9 +7,12 @@ func init() {
 		func(r *Report) {
 			ruleEffect(r)
 			ruleDBIndexThreadSafe(r)
+			ruleGuardedEscape(r)
+			ruleRWMemstore(r)
 			ruleLocks(r)
 			ruleByteAPICopies(r)
 			ruleAllocBounded(r)
+			ruleFitsWithoutSum(r)
 			ruleValueBuffersImmutable(r)
 			rulePoolPutOnce(r)
 		})
